@@ -90,7 +90,7 @@ def post(info):
         return 'no fill occurred in the generated histories'
 
 
-HIST = Part('histories', 'machine', run_history, machine=_machine, quick=1000, thorough=64000, quick_shards=8,
+HIST = Part('histories', 'machine', run_history, machine=_machine, quick=2500, thorough=64000, quick_shards=8,
             steps=(40, 60))
 HIST.new_harness = new_harness
 PARTS = [HIST, Part('minutes', 'sweep', run_minute, sweep=minutes, quick_shards=4, exhaustive=True)]
